@@ -393,6 +393,15 @@ fn total_strategy() -> impl Strategy<Value = String> {
             ], 0..90).prop_map(|v| v.into_iter().collect::<String>()),
         // dictionary tokens joined by spaces
         3 => proptest::collection::vec(proptest::sample::select(FEN_DICT.to_vec()), 0..9).prop_map(|v| v.join(" ")),
+        // long inputs (hundreds of bytes) mixing ASCII and multi-byte characters, bare or behind a valid FEN
+        2 => (0..n + 1, proptest::collection::vec(prop_oneof![3 => proptest::sample::select(vec!['p', 'K', '8', '/', ' ', 'w', '-', '1', 'é', 'ß', '名', '😀', '\u{212A}', '٣']), 1 => any::<char>()], 60..400)).prop_map({
+            let seeds = seeds.clone();
+            move |(i, tail)| {
+                let mut s = if i < seeds.len() { seeds[i].clone() } else { String::new() };
+                s.extend(tail);
+                s
+            }
+        }),
         // character-level mutations of a valid FEN
         6 => (0..n, proptest::collection::vec((any::<u16>(), 0..4u8, any::<char>(), 0..FEN_DICT.len()), 1..4)).prop_map(move |(i, muts)| {
             let mut chars: Vec<char> = seeds[i].chars().collect();
